@@ -355,3 +355,29 @@ def shape(sp):
             'xp': 'off' if not sp['config']['xp'] else ('echo' if sp['config']['echo'] else 'on'),
             'nsections': len(sp['order']), 'nblocks': len(sp['blocks']), 'ngens': len(sp['generators']),
             'standard_order': sp['order'] == [s for s in SECTIONS if s in sp['order']]}
+
+
+# ------------------------------------------------------------------ fixed witnesses of the recorded findings
+def base_spec(auto=True):
+    return {'title': 'witness', 'simulator': 'AUTOUGH2.2EW' if auto else '',
+            'rocks': [{'name': 'rock1', 'nad': 0, 'density': 2600.0, 'porosity': 0.1, 'permeability': [1.e-15, 1.e-15, 1.e-15],
+                       'conductivity': 1.5, 'specific_heat': 900.0, 'extra': {}, 'relperm': None, 'cap': None}],
+            'blocks': [{'name': 'AB105', 'nseq': None, 'nadd': None, 'rock': 'rock1', 'volume': 1.5, 'ahtx': None, 'pmx': None, 'centre': None}],
+            'conns': [], 'parameter': {'option': [0] * 24, 'tstart': 0.0, 'const_timestep': 0.0, 'timestep': [0.0], 'gravity': 9.81,
+                                       'default_incons': []},
+            'more_option': None, 'start': False, 'noversion': False, 'relperm': None, 'cap': None, 'lineq': {}, 'solver': {}, 'multi': {},
+            'output_times': {}, 'selection': {}, 'diffusion': [], 'meshmaker': [], 'generators': [], 'short': None, 'history_objects': True,
+            'history_block': [], 'history_connection': [], 'history_generator': [], 'incon': [], 'indom': [], 'end_keyword': 'ENDCY',
+            'order': None, 'config': {'mesh': 'infile', 'xp': None, 'echo': None}}
+
+
+def witness_specs():
+    """(name, spec): minimal inputs of the recorded findings, run on every check"""
+    out = []
+    s = base_spec(); s['config'] = {'mesh': 'infile', 'xp': True, 'echo': True}
+    out.append(('echo-lost', s))
+    s = base_spec(auto=False); s['parameter']['print_block'] = 'AB105'
+    out.append(('print-block-not-fixed', s))
+    s = base_spec(); s['config'] = {'mesh': 'infile', 'xp': True, 'echo': True}; s['blocks'][0]['volume'] = 1.234549999999
+    out.append(('echo-double-rounding', s))
+    return out
